@@ -848,10 +848,13 @@ def refine_scenarios(ctx, res, prop, plan, observer=None, oracles=(), driver=Tru
     import warnings
     import kwnruns
     done = []
+    import time as _time
     for name, cap in plan:
+        t0 = _time.time()
         with warnings.catch_warnings():
             warnings.simplefilter('ignore')
             ok, out = vlib.guarded(res, 'kwn-step-refinement:' + name, dict(scenario=name), _one, ctx, res, prop, name, cap, observer, oracles, driver)
+        res.extra.setdefault('scenario_seconds', {})[name] = round(_time.time() - t0, 1)
         if ok and out is not None:
             done.append((name, out))
     return done
